@@ -322,6 +322,24 @@ type Call struct {
 	GErr     *ErrSpec `json:"gerr,omitempty"`
 	GetBatch int      `json:"get_batch,omitempty"` // Get fails on this batch (1-based; 0 = never)
 	GetErr   *ErrSpec `json:"geterr,omitempty"`
+	// seq: a sequence of submissions that re-use the caller's slice (Sizes, Max as for submit)
+	Attempts []Attempt `json:"attempts,omitempty"`
+}
+
+// Attempt: one call of a sequence.  Before it the caller drops Skip leading blobs from the slice it used for the
+// previous attempt (block/submitter.go submitToDA: `marshaled = currMarshaled[res.SubmittedCount:]`; 0 = the very same
+// slice, as after every failed attempt); the backing DA answers this attempt as Resp/L/K/Err say.
+type Attempt struct {
+	Skip      int      `json:"skip,omitempty"`
+	Resp      string   `json:"resp"`
+	L         uint64   `json:"l,omitempty"`
+	K         int      `json:"k,omitempty"`
+	Err       *ErrSpec `json:"err,omitempty"`
+	Cancelled bool     `json:"cancelled,omitempty"`
+}
+
+func (a *Attempt) sameScript(b *Attempt) bool {
+	return a.Resp == b.Resp && a.L == b.L && a.K == b.K && a.Cancelled == b.Cancelled && reflect.DeepEqual(a.Err, b.Err)
 }
 
 type Replay struct {
@@ -368,17 +386,33 @@ var scriptTime = time.Unix(1_700_000_000, 123_456_789)
 // scripted is the DA double: it answers as the script says and records what reached it.
 type scripted struct {
 	call      *Call
-	sent      [][]byte
+	sent      [][]byte // the blobs the caller means to hand over with this call (a private copy)
+	orig      [][]byte // the caller's whole original batch (a private copy); sent = orig[base:]
+	base      int
 	mu        sync.Mutex
 	submitLog [][]int // sizes of the blobs of every submit call that reached the backend
+	idLog     [][]int // the same calls: each blob by the position in orig of the blob it is byte-for-byte equal to
 	contentOK bool    // every blob that reached the backend is the caller's blob at the same position
 	getids    int
 	gets      int
 	dummy     *coreda.DummyDA
 }
 
-func newScripted(c *Call, sent [][]byte) *scripted {
-	s := &scripted{call: c, sent: sent, contentOK: true}
+// whoIs: the position in orig of the blob b is byte-for-byte equal to: want if that one is, else the first, else 9999
+func whoIs(b []byte, orig [][]byte, want int) int {
+	if want >= 0 && want < len(orig) && bytes.Equal(b, orig[want]) {
+		return want
+	}
+	for i, o := range orig {
+		if bytes.Equal(b, o) {
+			return i
+		}
+	}
+	return 9999
+}
+
+func newScripted(c *Call, orig [][]byte, base int) *scripted {
+	s := &scripted{call: c, sent: orig[base:], orig: orig, base: base, contentOK: true}
 	if c.Resp == "dummy" {
 		s.dummy = coreda.NewDummyDA(c.L, 0, 0, time.Hour)
 	}
@@ -406,14 +440,16 @@ func (s *scripted) SubmitWithOptions(ctx context.Context, blobs []coreda.Blob, g
 	}
 	s.mu.Lock()
 	defer s.mu.Unlock()
-	var sz []int
+	var sz, who []int
 	for j, b := range blobs {
 		sz = append(sz, len(b))
+		who = append(who, whoIs(b, s.orig, s.base+j))
 		if j >= len(s.sent) || !bytes.Equal(b, s.sent[j]) {
 			s.contentOK = false
 		}
 	}
 	s.submitLog = append(s.submitLog, sz)
+	s.idLog = append(s.idLog, who)
 	c := s.call
 	switch c.Resp {
 	case "ok", "partial":
@@ -648,17 +684,44 @@ type caseOut struct {
 	dOK, pOK        bool // blob contents reaching the backend were the caller's
 	dcalls, pcalls  [2]int
 	dtext, ptext    *string // text of the error the helper was handed by the DA it called (nil = none)
+	// submit: the caller's WHOLE array after the call, slot by slot: the position (in the original batch) of the blob the
+	// slot now holds byte for byte; the blobs that reached the double, likewise
+	dmem, pmem     []int
+	didlog, pidlog [][]int
+	// seq: one caseOut per attempt, the sub-call it amounts to (the blobs the caller means to hand over), its offset
+	steps []caseOut
+	subs  []Call
 }
 
-func (r *rig) run(c *Call) caseOut {
+func batchBytes(sizes []int) [][]byte {
+	out := make([][]byte, 0, len(sizes))
+	for i, s := range sizes {
+		out = append(out, blobBytes(i, s))
+	}
+	return out
+}
+
+func memProj(arr, orig [][]byte) []int {
+	out := make([]int, len(arr))
+	for j, b := range arr {
+		out[j] = whoIs(b, orig, j)
+	}
+	return out
+}
+
+func isIota(a []int) bool {
+	for i, x := range a {
+		if x != i {
+			return false
+		}
+	}
+	return true
+}
+
+// runSubmit: one call pair.  The in-process double is handed darr[off:], the client parr[off:] — two arrays of their
+// own, so that neither side can disturb the other —; orig is a third copy nobody is handed: what the caller's blobs were.
+func (r *rig) runSubmit(c *Call, orig, darr, parr [][]byte, off int) caseOut {
 	var out caseOut
-	var sent [][]byte
-	if c.Real {
-		c.Max = r.defaultMax // server and client exactly as production builds them
-	}
-	for i, s := range c.Sizes {
-		sent = append(sent, blobBytes(i, s))
-	}
 	mkctx := func() (context.Context, context.CancelFunc) {
 		ctx, cancel := context.WithTimeout(context.Background(), 20*time.Second)
 		if c.Cancelled {
@@ -666,19 +729,75 @@ func (r *rig) run(c *Call) caseOut {
 		}
 		return ctx, cancel
 	}
-	d := newScripted(c, sent)
-	p := newScripted(c, sent)
+	d := newScripted(c, orig, off)
+	p := newScripted(c, orig, off)
+	r.sw.set(p)
+	r.client.DA.MaxBlobSize = c.Max
+	dr, pr := &recorder{DA: d}, &recorder{DA: &r.client.DA}
+	ctx, cancel := mkctx()
+	out.direct = projSubmit(c, orig[off:], types.SubmitWithHelpers(ctx, dr, r.logger, darr[off:], 0, nil))
+	cancel()
+	ctx, cancel = mkctx()
+	out.proxied = projSubmit(c, orig[off:], types.SubmitWithHelpers(ctx, pr, r.logger, parr[off:], 0, nil))
+	cancel()
+	out.dtext, out.ptext = dr.text, pr.text
+	out.dlog, out.plog = d.submitLog, p.submitLog
+	out.didlog, out.pidlog = d.idLog, p.idLog
+	out.dOK, out.pOK = d.contentOK, p.contentOK
+	out.dmem, out.pmem = memProj(darr, orig), memProj(parr, orig)
+	return out
+}
+
+// offsets of the attempts of a sequence: Skip is clamped to what is left (s[k:] with k > len(s) would panic in the caller)
+func (c *Call) offsets() []int {
+	offs := make([]int, len(c.Attempts))
+	off := 0
+	for i, a := range c.Attempts {
+		k := a.Skip
+		if k < 0 {
+			k = 0
+		}
+		if off+k > len(c.Sizes) {
+			k = len(c.Sizes) - off
+		}
+		off += k
+		offs[i] = off
+	}
+	return offs
+}
+
+func (r *rig) run(c *Call) caseOut {
+	var out caseOut
+	if c.Real {
+		c.Max = r.defaultMax // server and client exactly as production builds them
+	}
+	switch c.Kind {
+	case "submit":
+		return r.runSubmit(c, batchBytes(c.Sizes), batchBytes(c.Sizes), batchBytes(c.Sizes), 0)
+	case "seq":
+		orig, darr, parr := batchBytes(c.Sizes), batchBytes(c.Sizes), batchBytes(c.Sizes)
+		offs := c.offsets()
+		for i, a := range c.Attempts {
+			sub := Call{Kind: "submit", Sizes: c.Sizes[offs[i]:], Max: c.Max, Resp: a.Resp, L: a.L, K: a.K, Err: a.Err, Cancelled: a.Cancelled}
+			out.steps = append(out.steps, r.runSubmit(&sub, orig, darr, parr, offs[i]))
+			out.subs = append(out.subs, sub)
+		}
+		return out
+	}
+	var sent [][]byte
+	mkctx := func() (context.Context, context.CancelFunc) {
+		ctx, cancel := context.WithTimeout(context.Background(), 20*time.Second)
+		if c.Cancelled {
+			cancel()
+		}
+		return ctx, cancel
+	}
+	d := newScripted(c, sent, 0)
+	p := newScripted(c, sent, 0)
 	r.sw.set(p)
 	r.client.DA.MaxBlobSize = c.Max
 	dr, pr := &recorder{DA: d}, &recorder{DA: &r.client.DA}
 	switch c.Kind {
-	case "submit":
-		ctx, cancel := mkctx()
-		out.direct = projSubmit(c, sent, types.SubmitWithHelpers(ctx, dr, r.logger, sent, 0, nil))
-		cancel()
-		ctx, cancel = mkctx()
-		out.proxied = projSubmit(c, sent, types.SubmitWithHelpers(ctx, pr, r.logger, sent, 0, nil))
-		cancel()
 	case "retrieve":
 		ctx, cancel := mkctx()
 		out.direct = projRetrieve(types.RetrieveWithHelpers(ctx, dr, r.logger, c.Height, []byte("test")))
@@ -707,7 +826,40 @@ func sum(a []int) (s int) {
 
 var submitClasses = map[string]bool{"StNotIncluded": true, "StMempool": true, "StSeq": true, "StTooBig": true, "StDeadline": true}
 
+// oracleSeq: a sequence of submissions on one slice.  Every attempt is a call pair of its own (the blobs the caller
+// MEANS to hand over at that attempt, whatever its array holds by then) and must satisfy everything a single call pair
+// must — the caller's array byte-for-byte intact after it included —; and a retry with the very same slice that meets
+// the same backing-DA behaviour is answered like the attempt before it.
+func oracleSeq(c *Call, o caseOut) []viol {
+	var vs []viol
+	seen := map[string]bool{}
+	add := func(sig, what string) {
+		if !seen[sig] {
+			seen[sig] = true
+			vs = append(vs, viol{sig, what})
+		}
+	}
+	offs := c.offsets()
+	for i := range o.steps {
+		sub := o.subs[i]
+		for _, v := range oracle(&sub, o.steps[i]) {
+			add(v.sig, fmt.Sprintf("attempt %d of %d on one slice (batch sizes=%v max=%d, this attempt hands over blobs %d..%d): %s", i+1, len(o.steps), c.Sizes, c.Max, offs[i], len(c.Sizes)-1, v.what))
+		}
+		if i > 0 && offs[i] == offs[i-1] && c.Attempts[i].sameScript(&c.Attempts[i-1]) {
+			a, b := o.steps[i-1], o.steps[i]
+			if !reflect.DeepEqual(a.proxied, b.proxied) || !reflect.DeepEqual(a.pidlog, b.pidlog) {
+				add("retry-with-same-slice-answered-differently", fmt.Sprintf("batch sizes=%v max=%d, blobs %d.. handed over with the same slice at attempts %d and %d, the backing DA scripted alike (%s): proxied attempt %d: %+v, the DA received blobs %v; attempt %d: %+v, the DA received blobs %v (direct: %+v / %+v)",
+					c.Sizes, c.Max, offs[i], i, i+1, c.Attempts[i].Resp, i, a.proxied, a.pidlog, i+1, b.proxied, b.pidlog, a.direct, b.direct))
+			}
+		}
+	}
+	return vs
+}
+
 func oracle(c *Call, o caseOut) []viol {
+	if c.Kind == "seq" {
+		return oracleSeq(c, o)
+	}
 	var vs []viol
 	add := func(sig, f string, a ...interface{}) { vs = append(vs, viol{sig, fmt.Sprintf(f, a...)}) }
 	same := reflect.DeepEqual(o.direct, o.proxied)
@@ -731,6 +883,14 @@ func oracle(c *Call, o caseOut) []viol {
 			add(fmt.Sprintf("retrieve-differs-%s-vs-%s", o.direct.Code, o.proxied.Code), "retrieve at height %d: direct %+v, proxied %+v", c.Height, o.direct, o.proxied)
 		}
 	case "submit":
+		// the DA — in-process or behind the client — is a function of the blobs it is handed and does not write to them:
+		// after the call the caller's array holds, byte for byte, what it held before
+		if !isIota(o.pmem) {
+			add("caller-blobs-overwritten-by-client", "submit sizes=%v max=%d through the client: the caller's array now holds the blobs created at positions %v (9999 = none of them)", c.Sizes, c.Max, o.pmem)
+		}
+		if !isIota(o.dmem) {
+			add("caller-blobs-overwritten-in-process", "submit sizes=%v in-process: the caller's array now holds the blobs created at positions %v", c.Sizes, o.dmem)
+		}
 		fits := true
 		for _, s := range c.Sizes {
 			if uint64(s) > c.Max {
@@ -1011,6 +1171,113 @@ func genCall(r *rand.Rand) Call {
 	return c
 }
 
+// genSeq: a sequence of 2..5 attempts on one slice.  Batches: an individually oversize blob at EVERY position (first,
+// middle, last; one or two of them) among blobs that fit, batches that fit, batches that cross the limit.  Attempts: a
+// plain retry (Skip 0) that meets the same backing-DA behaviour as the attempt before, or a different one; or the caller
+// moves on past the blobs reported submitted (Skip = what a success would have taken) or past an arbitrary number.
+func genSeq(r *rand.Rand) Call {
+	c := Call{Kind: "seq"}
+	c.Max = []uint64{8, 32, 100, 1000}[r.Intn(4)]
+	M := int(c.Max)
+	n := 1 + r.Intn(6)
+	if r.Intn(8) == 0 {
+		n = 7 + r.Intn(8)
+	}
+	fitting := func() {
+		rem := M
+		for i := 0; i < n; i++ {
+			s := r.Intn(rem/(n-i) + 1)
+			c.Sizes = append(c.Sizes, s)
+			rem -= s
+		}
+	}
+	switch p := r.Intn(100); {
+	case p < 45: // oversize blob(s) among fitting ones, position uniform over first / middle / last
+		fitting()
+		pos := []int{0, n / 2, n - 1, r.Intn(n)}[r.Intn(4)]
+		c.Sizes[pos] = M + 1 + r.Intn(3)
+		if n > 2 && r.Intn(4) == 0 {
+			c.Sizes[r.Intn(n)] = M + 1 + r.Intn(60)
+		}
+	case p < 70:
+		fitting()
+	default: // crosses the limit somewhere
+		for i := 0; i < n; i++ {
+			c.Sizes = append(c.Sizes, r.Intn(M/2+1)+r.Intn(2)*r.Intn(M/2+1))
+		}
+	}
+	script := func() Attempt {
+		a := Attempt{}
+		switch p := r.Intn(100); {
+		case p < 50:
+			a.Resp = "ok"
+		case p < 65:
+			a.Resp = "dummy"
+			a.L = []uint64{c.Max, c.Max / 2, c.Max * 2}[r.Intn(3)]
+		case p < 85:
+			a.Resp = "err"
+			a.Err = genErr(r, true)
+			if a.Err.Pad > 600 {
+				a.Err.Pad = 600 // long texts have their own stream
+			}
+		case p < 90:
+			a.Resp = "noids"
+		default:
+			a.Resp = "partial"
+			a.K = r.Intn(n + 1)
+		}
+		a.Cancelled = r.Intn(20) == 0
+		return a
+	}
+	k := 2 + r.Intn(4)
+	off := 0
+	for i := 0; i < k; i++ {
+		var a Attempt
+		if i > 0 && r.Intn(100) < 55 {
+			a = c.Attempts[i-1]
+		} else {
+			a = script()
+		}
+		a.Skip = 0
+		if i > 0 && r.Intn(100) < 30 {
+			// what a success of the previous attempt would have taken: the longest prefix that fits
+			t, acc := off, 0
+			for t < len(c.Sizes) && c.Sizes[t] <= M && acc+c.Sizes[t] <= M {
+				acc += c.Sizes[t]
+				t++
+			}
+			a.Skip = []int{t - off, 1, r.Intn(n + 1)}[r.Intn(3)]
+			if off+a.Skip > len(c.Sizes) {
+				a.Skip = len(c.Sizes) - off
+			}
+		}
+		off += a.Skip
+		c.Attempts = append(c.Attempts, a)
+	}
+	return c
+}
+
+// seqJobs: the fixed part of the sequence stream: an oversize blob first / in the middle / last / twice among fitting
+// ones, retried with the same slice against a DA that accepts everything, the real DummyDA with the same limit, a DA that
+// fails once; a partial success followed by the tail of the slice (submitToDA's `marshaled[count:]`).
+func seqJobs() []job {
+	var js []job
+	add := func(sizes []int, max uint64, at ...Attempt) {
+		js = append(js, job{0, 0, &Call{Kind: "seq", Sizes: sizes, Max: max, Attempts: at}, false})
+	}
+	ok, dummy := Attempt{Resp: "ok"}, Attempt{Resp: "dummy", L: 100}
+	timeout := Attempt{Resp: "err", Err: &ErrSpec{Sent: []int{2}, Prefix: "failed to submit"}}
+	for _, sizes := range [][]int{{150, 10, 20}, {10, 150, 20}, {10, 20, 150}, {10, 150, 20, 101, 5}, {0, 101, 0, 7}, {150}} {
+		add(sizes, 100, ok, ok, ok)
+		add(sizes, 100, dummy, dummy)
+		add(sizes, 100, timeout, ok, Attempt{Resp: "ok", Skip: 1})
+	}
+	add([]int{40, 30, 31, 5}, 100, ok, Attempt{Resp: "ok", Skip: 2}, Attempt{Resp: "ok", Skip: 2})
+	add([]int{40, 30, 31, 5}, 100, timeout, timeout, ok, Attempt{Resp: "partial", K: 1, Skip: 2}, Attempt{Resp: "ok", Skip: 1})
+	add([]int{40, 60, 1}, 100, Attempt{Resp: "ok", Cancelled: true}, ok, Attempt{Resp: "noids", Skip: 2}, Attempt{Resp: "ok"})
+	return js
+}
+
 // ---- Coq terms -----------------------------------------------------------------------------------------------
 
 func natList(a []int) string {
@@ -1045,22 +1312,35 @@ func logCoq(l [][]int) string {
 	return vgen.List(parts)
 }
 
+func respCoq(resp string, l uint64, k int, e *ErrSpec) string {
+	switch resp {
+	case "ok":
+		return "SOk"
+	case "dummy":
+		return fmt.Sprintf("(SDummy %s)", vgen.N(l))
+	case "err":
+		return "(SErr " + errCoq(e.build()) + ")"
+	case "noids":
+		return "SNoIDs"
+	case "partial":
+		return fmt.Sprintf("(SPartial %d)", k)
+	}
+	return ""
+}
+
 func callCoq(c *Call) string {
 	if c.Kind == "submit" {
-		resp := ""
-		switch c.Resp {
-		case "ok":
-			resp = "SOk"
-		case "dummy":
-			resp = fmt.Sprintf("(SDummy %s)", vgen.N(c.L))
-		case "err":
-			resp = "(SErr " + errCoq(c.Err.build()) + ")"
-		case "noids":
-			resp = "SNoIDs"
-		case "partial":
-			resp = fmt.Sprintf("(SPartial %d)", c.K)
+		return fmt.Sprintf("(CSubmit %s %s %s %s)", natList(c.Sizes), vgen.N(c.Max), respCoq(c.Resp, c.L, c.K, c.Err), vgen.Bool(c.Cancelled))
+	}
+	if c.Kind == "seq" {
+		offs := c.offsets()
+		var parts []string
+		prev := 0
+		for i, a := range c.Attempts {
+			parts = append(parts, fmt.Sprintf("(%s, %s, %s)", vgen.Nat(offs[i]-prev), respCoq(a.Resp, a.L, a.K, a.Err), vgen.Bool(a.Cancelled)))
+			prev = offs[i]
 		}
-		return fmt.Sprintf("(CSubmit %s %s %s %s)", natList(c.Sizes), vgen.N(c.Max), resp, vgen.Bool(c.Cancelled))
+		return fmt.Sprintf("(CSeq %s %s %s)", natList(c.Sizes), vgen.N(c.Max), vgen.List(parts))
 	}
 	g := ""
 	switch c.G {
@@ -1080,14 +1360,30 @@ func callCoq(c *Call) string {
 	return fmt.Sprintf("(CRetrieve %s %s %s %s)", vgen.N(c.Height), g, ge, vgen.Bool(c.Cancelled))
 }
 
+func stepsCoq(steps []caseOut, proxied bool) string {
+	var parts []string
+	for _, st := range steps {
+		ob, lg, mem := st.direct, st.didlog, st.dmem
+		if proxied {
+			ob, lg, mem = st.proxied, st.pidlog, st.pmem
+		}
+		parts = append(parts, fmt.Sprintf("(mk_sstep %s %s %s %s %s %s)", ob.Code, natList(ob.IDs), vgen.N(ob.Count), vgen.N(ob.Height), logCoq(lg), natList(mem)))
+	}
+	return "(OSeq " + vgen.List(parts) + ")"
+}
+
 func caseCoq(c *Call, o caseOut) string {
+	if c.Kind == "seq" {
+		return fmt.Sprintf("{| c_call := %s; c_direct := %s; c_proxied := %s; c_dlog := []; c_plog := []; c_dcalls := (0, 0)%%N; c_pcalls := (0, 0)%%N; c_indomain := true; c_dtext := None; c_ptext := None; c_dmem := []; c_pmem := [] |}",
+			callCoq(c), stepsCoq(o.steps, false), stepsCoq(o.steps, true))
+	}
 	inDom := true
 	if c.Kind == "submit" && c.Resp == "err" {
 		inDom = c.Err.inDomain()
 	}
-	return fmt.Sprintf("{| c_call := %s; c_direct := %s; c_proxied := %s; c_dlog := %s; c_plog := %s; c_dcalls := (%d, %d)%%N; c_pcalls := (%d, %d)%%N; c_indomain := %s; c_dtext := %s; c_ptext := %s |}",
+	return fmt.Sprintf("{| c_call := %s; c_direct := %s; c_proxied := %s; c_dlog := %s; c_plog := %s; c_dcalls := (%d, %d)%%N; c_pcalls := (%d, %d)%%N; c_indomain := %s; c_dtext := %s; c_ptext := %s; c_dmem := %s; c_pmem := %s |}",
 		callCoq(c), obsCoq(c.Kind, o.direct), obsCoq(c.Kind, o.proxied), logCoq(o.dlog), logCoq(o.plog),
-		o.dcalls[0], o.dcalls[1], o.pcalls[0], o.pcalls[1], vgen.Bool(inDom), optTextCoq(o.dtext), optTextCoq(o.ptext))
+		o.dcalls[0], o.dcalls[1], o.pcalls[0], o.pcalls[1], vgen.Bool(inDom), optTextCoq(o.dtext), optTextCoq(o.ptext), natList(o.dmem), natList(o.pmem))
 }
 
 // ---- shrinking --------------------------------------------------------------------------------------------------
@@ -1103,7 +1399,20 @@ func hasSig(vs []viol, sig string) bool {
 
 func shrink(rg *rig, c Call, sig string) Call {
 	fails := func(x Call) bool { return hasSig(oracle(&x, rg.run(&x)), sig) }
-	if c.Kind == "submit" {
+	if c.Kind == "seq" {
+		c.Attempts = vgen.Shrink(c.Attempts, func(a []Attempt) bool { x := c; x.Attempts = a; return len(a) > 0 && fails(x) })
+		for i := range c.Attempts { // a plain retry against a DA that accepts everything, if that still fails
+			for _, f := range []func(a *Attempt){func(a *Attempt) { a.Skip = 0 }, func(a *Attempt) { a.Resp, a.Err, a.L, a.K = "ok", nil, 0, 0 }, func(a *Attempt) { a.Cancelled = false }} {
+				x := c
+				x.Attempts = append([]Attempt{}, c.Attempts...)
+				f(&x.Attempts[i])
+				if !reflect.DeepEqual(x.Attempts[i], c.Attempts[i]) && fails(x) {
+					c = x
+				}
+			}
+		}
+	}
+	if c.Kind == "submit" || c.Kind == "seq" {
 		sz := vgen.Shrink(c.Sizes, func(s []int) bool { x := c; x.Sizes = s; return fails(x) })
 		c.Sizes = sz
 		for i := range c.Sizes { // smaller sizes
@@ -1196,6 +1505,7 @@ type job struct {
 	seed int64
 	c    int
 	call *Call
+	seq  bool // generated by genSeq (its own PRNG stream) instead of genCall
 }
 
 // split total into n near-equal parts
@@ -1214,7 +1524,7 @@ func split(total, n int) []int {
 func realSizeJobs(def uint64) []job {
 	var js []job
 	D := int(def)
-	add := func(c Call) { c.Kind = "submit"; c.Real = true; c.Max = def; cc := c; js = append(js, job{0, 0, &cc}) }
+	add := func(c Call) { c.Kind = "submit"; c.Real = true; c.Max = def; cc := c; js = append(js, job{0, 0, &cc, false}) }
 	for _, t := range []int{D / 2, D * 3 / 4, D * 9 / 10, D * 99 / 100, D, D + 1} {
 		add(Call{Sizes: []int{t}, Resp: "ok"})
 		add(Call{Sizes: split(t, 4), Resp: "ok"})
@@ -1233,7 +1543,7 @@ func realSizeJobs(def uint64) []job {
 // middle and at the start; whole messages of exactly 2^k-1, 2^k, 2^k+1 bytes for k = 5..13; a failing Get.
 func longTextJobs() []job {
 	var js []job
-	add := func(c Call) { cc := c; js = append(js, job{0, 0, &cc}) }
+	add := func(c Call) { cc := c; js = append(js, job{0, 0, &cc, false}) }
 	sub := func(e *ErrSpec) { add(Call{Kind: "submit", Sizes: []int{3, 4}, Max: 100, Resp: "err", Err: e}) }
 	ret := func(e *ErrSpec) { add(Call{Kind: "retrieve", Height: 5, G: "err", GErr: e}) }
 	for i := range sentErrs {
@@ -1289,7 +1599,7 @@ func TestVerif(t *testing.T) {
 		if err := vgen.LoadReplay(e.Replay, &rp); err != nil {
 			t.Fatal(err)
 		}
-		jobs = append(jobs, job{rp.Seed, rp.Case, &rp.Call})
+		jobs = append(jobs, job{rp.Seed, rp.Case, &rp.Call, false})
 	} else {
 		if os.Getenv("VERIF_NO_CORPUS") == "" {
 			files, _ := filepath.Glob("../corpus/C16/*.json")
@@ -1297,24 +1607,28 @@ func TestVerif(t *testing.T) {
 			for _, f := range files {
 				var rp Replay
 				if vgen.LoadReplay(f, &rp) == nil && rp.Call.Kind != "" {
-					jobs = append(jobs, job{rp.Seed, rp.Case, &rp.Call})
+					jobs = append(jobs, job{rp.Seed, rp.Case, &rp.Call, false})
 				}
 			}
 			// fixed part: every sentinel bare and wrapped, and cancellation, on both paths
 			for i := range sentErrs {
 				for _, pre := range []string{"", "failed to submit"} {
-					jobs = append(jobs, job{0, 0, &Call{Kind: "submit", Sizes: []int{3, 4}, Max: 100, Resp: "err", Err: &ErrSpec{Sent: []int{i}, Prefix: pre}}})
-					jobs = append(jobs, job{0, 0, &Call{Kind: "retrieve", Height: 5, G: "err", GErr: &ErrSpec{Sent: []int{i}, Prefix: pre}}})
+					jobs = append(jobs, job{0, 0, &Call{Kind: "submit", Sizes: []int{3, 4}, Max: 100, Resp: "err", Err: &ErrSpec{Sent: []int{i}, Prefix: pre}}, false})
+					jobs = append(jobs, job{0, 0, &Call{Kind: "retrieve", Height: 5, G: "err", GErr: &ErrSpec{Sent: []int{i}, Prefix: pre}}, false})
 				}
 			}
 			jobs = append(jobs, realSizeJobs(rg.defaultMax)...)
 			jobs = append(jobs, longTextJobs()...)
-			jobs = append(jobs, job{0, 0, &Call{Kind: "submit", Sizes: []int{3, 4}, Max: 100, Resp: "err", Err: &ErrSpec{Ctx: "canceled"}}})
-			jobs = append(jobs, job{0, 0, &Call{Kind: "submit", Sizes: []int{3, 4}, Max: 100, Resp: "ok", Cancelled: true}})
-			jobs = append(jobs, job{0, 0, &Call{Kind: "retrieve", Height: 5, G: "ids", NIDs: 3, Cancelled: true}})
+			jobs = append(jobs, seqJobs()...)
+			jobs = append(jobs, job{0, 0, &Call{Kind: "submit", Sizes: []int{3, 4}, Max: 100, Resp: "err", Err: &ErrSpec{Ctx: "canceled"}}, false})
+			jobs = append(jobs, job{0, 0, &Call{Kind: "submit", Sizes: []int{3, 4}, Max: 100, Resp: "ok", Cancelled: true}, false})
+			jobs = append(jobs, job{0, 0, &Call{Kind: "retrieve", Height: 5, G: "ids", NIDs: 3, Cancelled: true}, false})
 		}
 		for c := 0; c < e.N; c++ {
 			jobs = append(jobs, job{seed: e.Seed, c: c})
+		}
+		for c := 0; c < e.N/4; c++ { // the sequence stream
+			jobs = append(jobs, job{seed: e.Seed, c: c, seq: true})
 		}
 	}
 
@@ -1324,6 +1638,9 @@ func TestVerif(t *testing.T) {
 		call := j.call
 		if call == nil {
 			c := genCall(caseRng(j.seed, j.c))
+			if j.seq {
+				c = genSeq(caseRng(j.seed, 500000+j.c))
+			}
 			call = &c
 		}
 		out := rg.run(call)
@@ -1345,6 +1662,28 @@ func TestVerif(t *testing.T) {
 			}
 			res.Count("submit-direct-code:" + out.direct.Code)
 			res.Count("submit-proxied-code:" + out.proxied.Code)
+			countOversize(res, "submit", call.Sizes, call.Max)
+		} else if call.Kind == "seq" {
+			res.Count(fmt.Sprintf("seq-attempts:%d", len(call.Attempts)))
+			res.Count(fmt.Sprintf("seq-blobs:%s", bucket(len(call.Sizes))))
+			countOversize(res, "seq", call.Sizes, call.Max)
+			offs := call.offsets()
+			for i, a := range call.Attempts {
+				res.Count("seq-attempt-backend:" + a.Resp)
+				res.Count("seq-attempt-proxied-code:" + out.steps[i].proxied.Code)
+				switch {
+				case i == 0:
+				case offs[i] != offs[i-1]:
+					res.Count("seq-attempt:caller-moved-on-to-a-tail-of-the-slice")
+				case a.sameScript(&call.Attempts[i-1]):
+					res.Count("seq-attempt:retry-same-slice-same-backend-behaviour")
+				default:
+					res.Count("seq-attempt:retry-same-slice-other-backend-behaviour")
+				}
+				if a.Cancelled {
+					res.Count("caller-context-cancelled")
+				}
+			}
 		} else {
 			res.Count("retrieve-backend:" + call.G)
 			if call.G == "err" {
@@ -1382,10 +1721,14 @@ func TestVerif(t *testing.T) {
 		}
 		if e.Replay != "" {
 			fmt.Printf("replay: call=%+v\n direct =%+v\n proxied=%+v\n backend log direct=%v proxied=%v\n oracle=%v\n", *call, out.direct, out.proxied, out.dlog, out.plog, vs)
+			fmt.Printf(" caller's array after the call: direct=%v proxied=%v\n", out.dmem, out.pmem)
+			for i, st := range out.steps {
+				fmt.Printf(" attempt %d (%+v):\n  direct =%+v received %v array after %v\n  proxied=%+v received %v array after %v\n", i+1, call.Attempts[i], st.direct, st.didlog, st.dmem, st.proxied, st.pidlog, st.pmem)
+			}
 		}
 	}
 	res.Distinct = len(distinct)
-	res.Rule = "one case = one call pair (direct double vs the same double behind the real jsonrpc server+client on 127.0.0.1:0) through types.SubmitWithHelpers / types.RetrieveWithHelpers; submit: 0..20 blobs with sizes fitting / crossing / individually exceeding the client limit (1..1000), plus a real-size stream (server and client with production limits, default max blob size, totals at 50/75/90/99/100% and 100%+1 byte, 4-6 medium blobs trimmed to a near-full prefix; 17 fixed + ~1.4% of generated calls), backend answers ok / real DummyDA with its own limit / scripted error / no ids / fewer ids; retrieve: nil / empty / 1..260 ids (1-3 Get batches, optional failing batch) / scripted error; scripted errors: each of the 8 core/da sentinels bare, wrapped, joined, context.Canceled, context.DeadlineExceeded, opaque, texts that merely mention a sentinel; 45% of them inside a long context text (0..~8 KB: around 2^4..2^13 +-2, uniform, log-uniform; request-dump style with quotes, <, &, backslash, newline, tab and a hex dump) with the error last (%w at the end, the Go convention), in the middle or first; the TEXT of the error the helper is handed is recorded on both sides and compared with the model's (the wire keeps the whole text) and by the oracle (the backend's text arrives whole); 5% with the caller's context already cancelled; fixed part: every sentinel bare and wrapped on both paths, every sentinel behind 300 and 5000 bytes of context, messages of exactly 2^k-1, 2^k, 2^k+1 bytes (k=5..13) on both paths; non-trivial = not the empty submit; distinct = distinct Coq call terms"
+	res.Rule = "one case = one call pair (direct double vs the same double behind the real jsonrpc server+client on 127.0.0.1:0) through types.SubmitWithHelpers / types.RetrieveWithHelpers; submit: 0..20 blobs with sizes fitting / crossing / individually exceeding the client limit (1..1000), plus a real-size stream (server and client with production limits, default max blob size, totals at 50/75/90/99/100% and 100%+1 byte, 4-6 medium blobs trimmed to a near-full prefix; 17 fixed + ~1.4% of generated calls), backend answers ok / real DummyDA with its own limit / scripted error / no ids / fewer ids; retrieve: nil / empty / 1..260 ids (1-3 Get batches, optional failing batch) / scripted error; scripted errors: each of the 8 core/da sentinels bare, wrapped, joined, context.Canceled, context.DeadlineExceeded, opaque, texts that merely mention a sentinel; 45% of them inside a long context text (0..~8 KB: around 2^4..2^13 +-2, uniform, log-uniform; request-dump style with quotes, <, &, backslash, newline, tab and a hex dump) with the error last (%w at the end, the Go convention), in the middle or first; the TEXT of the error the helper is handed is recorded on both sides and compared with the model's (the wire keeps the whole text) and by the oracle (the backend's text arrives whole); 5% with the caller's context already cancelled; fixed part: every sentinel bare and wrapped on both paths, every sentinel behind 300 and 5000 bytes of context, messages of exactly 2^k-1, 2^k, 2^k+1 bytes (k=5..13) on both paths; after EVERY submit call the caller's whole array is compared byte for byte with a private copy of the batch (each side is handed an array of its own) and, as positions, with the memory model (Model/ProxyMem.v); sequence stream (N/4 generated + 21 fixed): 2..5 submissions on ONE slice as block/submitter.go submitToDA does (the same slice again after a failure, a tail of it after a partial success), batches with an individually oversize blob first / in the middle / last / twice among fitting ones, fitting batches, batches crossing the limit; per attempt the backing DA behaves as before or differently; compared per attempt: result, the blobs that reached the double (by identity = byte-equality with the original blob at a position), the caller's array; oracle: every attempt is a call pair with all the obligations of one, and a retry with the same slice meeting the same backend behaviour is answered like the attempt before; non-trivial = not the empty submit; distinct = distinct Coq call terms"
 	res.Cases = len(cases)
 	header := "From Coq Require Import String Ascii NArith List Bool.\nFrom Verif Require Import Model.Proxy Check.ProxyCheck."
 	defs := []string{tableCoq(),
@@ -1405,6 +1748,41 @@ func TestVerif(t *testing.T) {
 	}()
 	if err := res.Write(e.Out); err != nil {
 		t.Fatal(err)
+	}
+}
+
+// countOversize: where the individually oversize blobs of a batch stand, and whether a blob that fits follows one
+func countOversize(res *vgen.Result, pfx string, sizes []int, max uint64) {
+	first, n := -1, 0
+	for i, s := range sizes {
+		if uint64(s) > max {
+			if first < 0 {
+				first = i
+			}
+			n++
+		}
+	}
+	if first < 0 {
+		return
+	}
+	switch {
+	case len(sizes) == 1:
+		res.Count(pfx + ":oversize-blob-alone")
+	case first == 0:
+		res.Count(pfx + ":oversize-blob-first")
+	case first == len(sizes)-1:
+		res.Count(pfx + ":oversize-blob-last")
+	default:
+		res.Count(pfx + ":oversize-blob-in-the-middle")
+	}
+	if n > 1 {
+		res.Count(pfx + ":several-oversize-blobs")
+	}
+	for _, s := range sizes[first+1:] {
+		if uint64(s) <= max {
+			res.Count(pfx + ":fitting-blob-after-an-oversize-one")
+			break
+		}
 	}
 }
 
